@@ -28,6 +28,8 @@ FILTERS = [
 EXCLUSIVE = {"discard_trimmed", "discard_untrimmed", "untrimmed_output"}
 
 
+OUTPUT = "FilterOrder.lean"      # the generated file (harness/core.py: a failure of this translator concerns the properties that import it)
+
 def _run(cli, argv):
     old = sys.stdout, sys.stderr
     sys.stdout, sys.stderr = io.StringIO(), io.StringIO()
